@@ -3,15 +3,16 @@
    sat_dissat.rs, two independent lookups `rs_pk` = lookup_raw_pkh_pk, `rs_sig` = lookup_raw_pkh_ecdsa_sig /
    lookup_raw_pkh_tap_leaf_script_sig). Proofs: Proofs/RawPkhResolve*.v.
 
-   Scope. The theorems cover every script all of whose raw hashes the satisfier resolves
-   (`rawpkh_ok`: lookup_raw_pkh_pk knows the hash and returns a key hashing to it; the signature lookup is
-   consistent with the per-key signature lookup). For an UNRESOLVED hash the leaf returns
-   (dissat = Unavailable, sat = Impossible & has_sig) — `C01_rawpkh_unresolved_leaf` — and scripts mixing
-   resolved and unresolved hashes are covered by the per-run tie (tools/props/c01.py stage `rawpkh`), not by
-   a theorem: the existing table `all_sat` has no row for a key-less hash. *)
+   Scope. `C01_rawpkh_satisfaction_spends_any` covers EVERY script with raw key hashes — unresolved hashes,
+   hashes known to one lookup only, both modes — under: returned keys hash to the hash asked for, the raw
+   signature lookup hands out only signatures the caller holds, both lookups name the same key when both
+   answer, and each raw hash is the hash160 of some key of the key table. The equational results (model =
+   old model on the resolved script; C02 completeness; C17 lock exactness) need every raw hash of the script
+   resolved coherently (`rawpkh_ok`). For an UNRESOLVED hash the leaf returns (dissat = Unavailable,
+   sat = Impossible & has_sig) — `C01_rawpkh_unresolved_leaf`. *)
 From Verif Require Import Exec Ser Ast Types TypeCheck SatSpec Sat ExecLemmas TheoremA SatProofs Spend
   CompleteProofs CompleteThresh CompleteNonMall PlanProofs LockNeedSuffice LockNeedMain
-  RawPkhModel RawPkhResolve RawPkhResolveLift RawPkhResolveEx.
+  RawPkhModel RawPkhResolve RawPkhResolveLift RawPkhResolveGen RawPkhResolveEx.
 Local Open Scope N_scope.
 
 (* ---- the resolution layer ---- *)
@@ -91,6 +92,31 @@ Theorem C01_rawpkh_wsh_spends :
 Proof. exact rawpkh_wsh_spends. Qed.
 Print Assumptions C01_rawpkh_wsh_spends.
 
+(* ---- C01 for every script with raw key hashes, whatever the raw lookups know ---- *)
+Theorem C01_rawpkh_model_in_table :
+  forall (ke : keyenv) (A : assets) (se : senv) (f : fill) (re : rawenv) (dflt : bytes -> key),
+  linked ke A se f -> (forall ks, length (ksort ke ks) = length ks) ->
+  (forall h k, rs_sig re h = Some k -> se_sig se k <> None) ->
+  (forall h k k', rs_pk re h = Some k -> rs_sig re h = Some k' -> k = k') ->
+  forall (mall rhs : bool) (m : ms), kwf m ->
+    in_table ke A f (resolve (rs_tot re dflt) m) (sat_dissat_r ke se re mall rhs m).
+Proof. exact sat_in_table_r. Qed.
+Print Assumptions C01_rawpkh_model_in_table.
+
+Theorem C01_rawpkh_satisfaction_spends_any :
+  forall (e : env) (ke : keyenv) (A : assets) (se : senv) (re : rawenv) (f : fill) (dflt : bytes -> key),
+  linked ke A se f -> (forall ks, length (ksort ke ks) = length ks) ->
+  assets_ok e ke A -> (forall kbs, e_sigok e kbs [] = false) ->
+  (forall h k, rs_sig re h = Some k -> se_sig se k <> None) ->
+  (forall h k k', rs_pk re h = Some k -> rs_sig re h = Some k' -> k = k') ->
+  forall (mall rhs : bool) (m : ms) (t : ty),
+    type_of m = ROk t -> c_base (t_corr t) = BB -> wf e ke m ->
+    hash_matches ke (rs_pk re) m -> hash_matches ke (rs_sig re) m ->
+    (forall h, In h (raw_hashes m) -> kh ke (dflt h) = h) ->
+    forall bs, satisfy_r ke se re f mall rhs m = Some bs -> accepts e (enc ke m) (rev bs) = true.
+Proof. exact rawpkh_satisfaction_spends_gen. Qed.
+Print Assumptions C01_rawpkh_satisfaction_spends_any.
+
 (* ---- C02 ---- *)
 Theorem C02_rawpkh_table_witness_spends : forall (e : env) (ke : keyenv) (A : assets) (rs : bytes -> option key),
   assets_ok e ke A -> (forall kbs, e_sigok e kbs [] = false) ->
@@ -153,3 +179,14 @@ Example C01_rawpkh_ex_same_script :
   enc c02x_ke rx_m = enc c02x_ke (MOrD (MCheck (MPkH 0)) (MCheck (MPkK 2)))
   /\ resolve rx_pk rx_m = MOrD (MCheck (MPkH 0)) (MCheck (MPkK 2)).
 Proof. exact rx_enc. Qed.
+(* the general theorem's hypotheses hold for or_i(c:raw_pk_h([0]), c:raw_pk_h([1])) with [1] unknown to every lookup
+   and [0] known to the raw signature lookup only; the satisfaction goes through the raw leaf *)
+Example C01_rawpkh_ex_any_hypotheses :
+  (forall h k, rs_sig rx_sigonly h = Some k -> se_sig (c02x_se true) k <> None) /\
+  (forall h k k', rs_pk rx_sigonly h = Some k -> rs_sig rx_sigonly h = Some k' -> k = k') /\
+  hash_matches c02x_ke (rs_pk rx_sigonly) rx_m2 /\ hash_matches c02x_ke (rs_sig rx_sigonly) rx_m2 /\
+  (forall h, In h (raw_hashes rx_m2) -> kh c02x_ke (rx_dflt h) = h).
+Proof. exact rx_gen_hyps. Qed.
+Example C01_rawpkh_ex_any_sat :
+  satisfy_r c02x_ke (c02x_se true) rx_sigonly (c02x_f true) false true rx_m2 = Some [[0; 7]; [0]; [1]].
+Proof. vm_compute. reflexivity. Qed.
